@@ -27,6 +27,11 @@ CLAIMS = {
             'TLC proves HistoryIndependent / NoNullDeref / ErrorsRepeat / ContentCoherent / OneSlotPerZone for every reachable state of the model (all histories of any length over 3 zones x 4 years x 6 operations, direct handles sharing a processor, managers with 1-2 slots) as state invariants quantified over every enabled call, and refutes the parameterisation that mirrors the code as found. Every edge of the model graph is then replayed in the real BasicZoneProcessor/ExtendedZoneProcessor/TimeZone/ZoneManager: each answer must equal a freshly constructed time zone\'s answer (the property itself) and the projected state (bound zone, cached year, filled flag, round-robin index) must equal the model\'s. Seeded random histories (cache sizes 1..4, more zones than slots, out-of-range and Jan-1 arguments) are checked the same way and validated as traces by TLC.',
             'Trusted: hostshim; the driver reads private members through a private->public include (driver only); ASan/UBSan as crash/UB monitors. The Python ZoneSpecifier cache is not covered by this check yet.',
             '§4.4, §6-C08'),
+    'C10': ('model_checking',
+            'TLA+ algorithm-level spec of the registrar (Registrar.tla, uint16 arithmetic) checked by TLC for safety and, under weak fairness, termination; every case replayed on the real ZoneRegistrar/ZoneManager with an injected logging comparator: probe sequences must equal the model\'s',
+            'TLC checks exactness, index bounds, the sortedness flag and termination (liveness) of isSorted / linear / binary search with the threshold dispatch for all registry sizes 0..40 x every gap position, all permutations up to size 5, the two shipped sizes and seeded shuffles, and refutes the as-found binary search. Every one of those cases is replayed on a real ZoneRegistrar built from shipped zones (ASan build, exact-size heap registry, comparator injected through the existing template parameter): result, zone info, the *sequence of probed entries* and the manager\'s createFor* result must equal the model\'s; ids (all shipped, 0, 0xFFFFFFFF, absent) and indices 0..size+1 on the full and on small registries are compared with the direct definition.',
+            'Trusted: hostshim. Termination of the real code is observed via a probe budget (size+20 comparisons) and a 3 s watchdog per lookup.',
+            '§4.6, §6-C10'),
 }
 
 PLANNED = {
